@@ -605,7 +605,10 @@ class TrajectoryStore:
                     fs = FieldSet.from_registry(fs_name)
                     for f, metadata in fs.fields.items():
                         if Dimension.SPECIES in metadata.dimensions:
-                            species.update(getattr(associated_data, f).keys())
+                            # Unset optional fields are None.
+                            value = getattr(associated_data, f)
+                            if value is not None:
+                                species.update(value.keys())
 
                 nc_info = self._create_nc_file(
                     associated_file,
@@ -1600,14 +1603,21 @@ class TrajectoryStore:
                     nc_files.species or [],
                 )
                 data[name] = val
-                if Dimension.POINT in field.dimensions and npoints is None:
+                # Unset optional fields are read as None and cannot be used
+                # to determine the number of points.
+                if (
+                    Dimension.POINT in field.dimensions
+                    and npoints is None
+                    and val is not None
+                ):
                     if Dimension.SPECIES in field.dimensions:
                         # Get number of points from arbitrary entry in the
                         # SpeciesValues dictionary here.
-                        npoints = len(next(iter(data[name].values())))
+                        if len(val) > 0:
+                            npoints = len(next(iter(val.values())))
                     else:
                         # Data should be a simple Numpy array here.
-                        npoints = len(data[name])
+                        npoints = len(val)
 
         # Construct the return trajectory.
         assert npoints is not None
@@ -1764,7 +1774,7 @@ class TrajectoryStore:
                 # SpeciesValues[float]: only species that were written for
                 # this field (the others hold the fill value).
                 fill = var.get_fill_value()
-                return SpeciesValues(
+                result = SpeciesValues(
                     {
                         sp: var[index, si]
                         for si, sp in enumerate(species)
@@ -1774,7 +1784,7 @@ class TrajectoryStore:
             case (True, False, True):
                 # SpeciesValues[np.ndarray]: only species that were written
                 # for this field (the others are empty).
-                return SpeciesValues(
+                result = SpeciesValues(
                     {
                         sp: var[index, si]
                         for si, sp in enumerate(species)
@@ -1783,6 +1793,10 @@ class TrajectoryStore:
                 )
             case (False, True, False):
                 # ThrustModeValues
+                if not field.required and all(
+                    var[index, :] == var.get_fill_value()
+                ):
+                    return None
                 return ThrustModeValues(
                     {tm: var[index, ti] for ti, tm in enumerate(ThrustMode)}
                 )
@@ -1790,7 +1804,7 @@ class TrajectoryStore:
                 # SpeciesValues[ThrustModeValues]: only species that were
                 # written for this field.
                 fill = var.get_fill_value()
-                return SpeciesValues[ThrustModeValues](
+                result = SpeciesValues[ThrustModeValues](
                     {
                         sp: ThrustModeValues(
                             {tm: var[index, si, ti] for ti, tm in enumerate(ThrustMode)}
@@ -1801,6 +1815,12 @@ class TrajectoryStore:
                 )
             case _:
                 raise ValueError(f'Invalid combination of dimensions for field {name}')
+
+        # Species-indexed fields: an optional field with no species written at
+        # all was unset.
+        if len(result) == 0 and not field.required:
+            return None
+        return result
 
     def _check_file_paths(self, paths: list[PathType], mode: FileMode) -> None:
         # Ensure all input paths are distinct.
